@@ -356,6 +356,85 @@ class C16(Prop):
         if hard:
             stt.mark_nontrivial(case_hash(case))
 
+    def check_deep_types(self, case, stt):
+        """(a) deep_type is a function of the structure of types only: values that compare (and hash) equal but have other
+        element types get their own deep type, whatever was typed before in the process.  (b) a term's class is its
+        origin subscripted by the deep types of its constructor arguments, also when the term was built in two steps
+        under different interpretations (child under reflect / lazy, binder or operation under eager)."""
+        import funsor.interpretations as I
+        from funsor import ops
+        from funsor.terms import Funsor
+        from funsor.typing import deep_type, get_origin
+        from vf.build import build
+        from vf.gen import Opts, SeedSource, gen_expr
+        from vf.lang import typeof
+
+        r = random.Random(case["seed"] * 13 + 5)
+
+        def expected(o):
+            if isinstance(o, tuple):
+                return typing.Tuple[tuple(expected(e_) for e_ in o)] if o else typing.Tuple
+            if isinstance(o, frozenset):
+                if not o:
+                    return typing.FrozenSet
+                ts = {expected(e_) for e_ in o}
+                return typing.FrozenSet[ts.pop()] if len(ts) == 1 else None
+            return type(o)
+
+        pool = [(3, 4), (3.0, 4.0), (True, 4), (1, 0), (True, False), (1.0, 0), ((1,), 2), ((True,), 2.0), ((1.0,), 2), ("a", 1), ("a", True), ("a", 1.0),
+                frozenset([1]), frozenset([1.0]), frozenset([True]), (frozenset([1]), 1), (frozenset([True]), 1.0), (), ((),), (0,), (False,), (0.0,)]
+        for _ in range(r.randint(6, 16)):
+            o = r.choice(pool)
+            want = expected(o)
+            if want is None:
+                continue
+            got = deep_type(o)
+            if got != want:
+                raise Violation("deep_type-depends-on-history", f"deep_type({o!r}) = {got}, expected {want} (values that compare equal but have other element types were typed earlier in this process)")
+        stt.count("deep_type-history")
+        # (b)
+        try:
+            node = gen_expr(SeedSource(case["seed"]), Opts(reals=True, max_depth=2, max_names=3), ("real", ()))
+            inputs = typeof(node)[0]
+            with getattr(I, r.choice(["reflect", "lazy", "reflect"])):
+                child = build(node)
+        except Exception:
+            raise Decline("could-not-build-a-child-term")
+        ints = sorted(n for n, d in inputs.items() if d[0] != "real" and n in getattr(child, "inputs", {}))
+        results = [child]
+        try:
+            if ints:
+                results.append(child.reduce(r.choice([ops.add, ops.logaddexp, ops.max]), ints[0]))
+                results.append(child(**{ints[-1]: 0}))
+            results.append(-child)
+            results.append(child + 1.0)
+            with I.lazy:
+                results.append(child * 2.0)
+        except Exception:
+            stt.count("operation-on-the-child-raised")
+        seen = set()
+
+        def walk_terms(t):
+            if id(t) in seen:
+                return
+            seen.add(id(t))
+            if isinstance(t, Funsor):
+                args = getattr(type(t), "__args__", None)
+                if args:
+                    want = tuple(deep_type(a) for a in t._ast_values)
+                    if tuple(args) != want:
+                        raise Violation("term-class-does-not-match-its-arguments", f"{get_origin(type(t)).__name__}: class parameters {args}, deep types of the arguments {want}")
+                for a in t._ast_values:
+                    walk_terms(a)
+            elif isinstance(t, (tuple, frozenset)):
+                for a in t:
+                    walk_terms(a)
+
+        for t in results:
+            walk_terms(t)
+        stt.count("term-class-invariant")
+        stt.mark_nontrivial(case_hash(case))
+
     def check(self, case, stt):
         from funsor.registry import KeyedRegistry
         from funsor.terms import Binary, Funsor, Number, Reduce, Unary, Variable
@@ -363,8 +442,10 @@ class C16(Prop):
         e = env()
         if "pair" in case or "entry" in case:
             return self.replay_entry(case)
-        if case["seed"] % 3 == 0:
+        if case["seed"] % 4 == 0:
             return self.check_variadic_history(case, stt)
+        if case["seed"] % 4 == 1:
+            return self.check_deep_types(case, stt)
         r = random.Random(case["seed"])
         default = lambda *args: None  # noqa: E731
         reg = KeyedRegistry(default=default)
